@@ -147,7 +147,7 @@ PROPS["C07"]["theorem_modules"] = PROPS["C07"]["theorem_modules"] + ["DecProofs.
 PROPS["C01"]["theorem_modules"] = PROPS["C01"]["theorem_modules"] + ["DecProofs.Properties.C01GenDiv", "DecProofs.Properties.C01GenDiv256"]
 PROPS["C02"]["theorem_modules"] = PROPS["C02"]["theorem_modules"] + ["DecProofs.Properties.C02GenFmaWrap", "DecProofs.Properties.C02GenFmaFront"]
 
-PROPS["C01"]["theorem_modules"] = PROPS["C01"]["theorem_modules"] + ["DecProofs.Properties.C01GenDiv256Corner", "DecProofs.Properties.C01GenSqrt", "DecProofs.Properties.C01GenSqrtLong", "DecProofs.Properties.C01GenAddLoop", "DecProofs.Properties.C01GenAddRound", "DecProofs.Properties.C01GenAddRoundBlock", "DecProofs.Properties.C01GenAddRoundClosed"]
+PROPS["C01"]["theorem_modules"] = PROPS["C01"]["theorem_modules"] + ["DecProofs.Properties.C01GenDiv256Corner", "DecProofs.Properties.C01GenSqrt", "DecProofs.Properties.C01GenSqrtLong", "DecProofs.Properties.C01GenAddLoop", "DecProofs.Properties.C01GenAddRound", "DecProofs.Properties.C01GenAddRoundBlock", "DecProofs.Properties.C01GenAddRoundClosed", "DecProofs.Properties.C01GenAddLoopShape", "DecProofs.Properties.C01GenAddLoopMath", "DecProofs.Properties.C01GenAddLoop35", "DecProofs.Properties.C01GenAddLoopB", "DecProofs.Properties.C01GenAddLoopB2", "DecProofs.Properties.C01GenAddLoopBClosed", "DecProofs.Properties.C01GenAddSpec"]
 for _pid in ("C06", "C08", "C11"):
     PROPS[_pid]["theorem_modules"] = PROPS[_pid]["theorem_modules"] + ["DecProofs.Properties.SourceLevel2"]
 
@@ -158,11 +158,14 @@ for _pid in ("C01", "C08", "C09", "C11"):
 
 PROPS["C02"]["theorem_modules"] = PROPS["C02"]["theorem_modules"] + ["DecProofs.Properties.C02GenFmaLow", "DecProofs.Properties.C02GenFmaZA", "DecProofs.Properties.C02GenFmaZB", "DecProofs.Properties.C02GenFmaZC", "DecProofs.Properties.C02GenFmaZD", "DecProofs.Properties.C02GenFmaZE", "DecProofs.Properties.C02GenFmaZF", "DecProofs.Properties.C02GenFmaZG", "DecProofs.Properties.C02GenFmaZH", "DecProofs.Properties.C02GenFmaZI", "DecProofs.Properties.C02GenFmaZJ", "DecProofs.Properties.C02GenFmaZK", "DecProofs.Properties.C02GenFmaZL", "DecProofs.Properties.C02GenFmaZM", "DecProofs.Properties.C02GenFmaMid", "DecProofs.Properties.C02GenFmaMidB", "DecProofs.Properties.C02GenFmaAssembly", "DecProofs.Properties.C02GenFmaWrapClosed", "DecProofs.Properties.C02GenFmaMidTop", "DecProofs.Properties.C02GenFmaZN", "DecProofs.Properties.C02GenFmaZO", "DecProofs.Properties.C02GenFmaZP", "DecProofs.Properties.C02GenFmaZQ", "DecProofs.Properties.C02GenFma1112", "DecProofs.Properties.C02GenFmaFrontSpec", "DecProofs.Properties.C02GenFmaZ", "DecProofs.Properties.C02GenFmaMidWideDefs", "DecProofs.Properties.C02GenFmaMidBW", "DecProofs.Properties.C02GenFmaMidWide", "DecProofs.Properties.C02GenFma1112Closed", "DecProofs.Properties.C02GenFma1112Fin", "DecProofs.Properties.C02GenFmaAssembly2", "DecProofs.Properties.C02GenFmaZ0", "DecProofs.Properties.C02GenFmaZ0B", "DecProofs.Properties.C02GenFmaZ0Tiny", "DecProofs.Properties.C02GenFmaZ0Small", "DecProofs.Properties.C02GenFmaAssembly3"]
 
-PROPS["C15"]["theorem_modules"] = PROPS["C15"]["theorem_modules"] + ["DecProofs.Properties.C15GenTotal"]
+PROPS["C15"]["theorem_modules"] = PROPS["C15"]["theorem_modules"] + ["DecProofs.Properties.C15GenTotal", "DecProofs.Properties.C15GenTotal2"]
 
 for _pid in ("C01", "C02"):
     PROPS[_pid]["theorem_modules"] = PROPS[_pid]["theorem_modules"] + ["DecProofs.Properties.SourceLevel4"]
 PROPS["C01"]["theorem_modules"] = PROPS["C01"]["theorem_modules"] + ["DecProofs.Properties.C02GenFmaAssembly3"]
+
+for _pid in ("C01", "C15"):
+    PROPS[_pid]["theorem_modules"] = PROPS[_pid]["theorem_modules"] + ["DecProofs.Properties.AllClosed"]
 
 # secondary build configuration of C02 (thorough tier): the tininess-after-rounding cargo feature
 PROPS["C02"]["feature_configs"] = [{"feature": "tiny_after", "judge_tiny_after": True}]
